@@ -383,9 +383,11 @@ func vkSrvSweep(c *vkit.Ctx, mode string) {
 		defer w.close()
 		vkSeedWorld(w)
 		v, _ := judge(w, cs)
-		if v == "" {
-			w.primer = vkPrimerPkt()
-			v, _ = judge(w, cs)
+		for _, pr := range vkPrimerPkts() {
+			if v == "" {
+				w.primer = pr
+				v, _ = judge(w, cs)
+			}
 		}
 		if v != "" {
 			c.Violation(mode+":replay", v, cs)
@@ -416,12 +418,10 @@ func vkSrvSweep(c *vkit.Ctx, mode string) {
 					// whatever history the sweep left on the recycled slab). The packet is served once first and
 					// that round discarded: a packet whose first serve itself changes shared state (e.g. records
 					// a failure for a new ECS audience) would otherwise make the path that runs first look different.
-					reproduce := func(primed bool) string {
+					reproduce := func(primer []byte) string {
 						w2 := vkNewSrvWorld(cfg)
 						vkSeedWorld(w2)
-						if primed {
-							w2.primer = vkPrimerPkt()
-						}
+						w2.primer = primer
 						_, _ = judge(w2, cs)
 						v2, _ := judge(w2, cs)
 						w2.close()
@@ -429,20 +429,23 @@ func vkSrvSweep(c *vkit.Ctx, mode string) {
 					}
 					v, outcome := judge(w, cs)
 					if v != "" {
-						if v = reproduce(false); v == "" {
+						if v = reproduce(nil); v == "" {
 							c.Add("dropped_unreproducible", 1)
 						}
 					}
-					if v == "" {
+					for pri, pr := range vkPrimerPkts() {
+						if v != "" {
+							break
+						}
 						// the same packet on a slab that has just served another client's EDNS query
-						// (slab reuse is how the engines run)
-						w.primer = vkPrimerPkt()
+						// (slab reuse is how the engines run); the second primer's reply carries AD=1 and a signed RRset
+						w.primer = pr
 						pv, o2 := judge(w, cs)
 						w.primer = nil
 						c.Add("evaluations", 1)
-						c.Outcome("primed:" + o2)
+						c.Outcome(fmt.Sprintf("primed%d:%s", pri, o2))
 						if pv != "" {
-							if pv = reproduce(true); pv == "" {
+							if pv = reproduce(pr); pv == "" {
 								c.Add("dropped_unreproducible", 1)
 							} else {
 								v = "after another client's EDNS query on the same slab: " + pv
